@@ -1,0 +1,114 @@
+//go:build verif
+
+// Contracts for the schema interpretation rules (package db, schema.go). Comments only.
+
+package db
+
+// reflect.DeepEqual on two column lists: an equivalence (deepid: identity of the deep contents).
+//@ extern reflect.DeepEqual
+//@   pure
+//@   ensures [cols] hasType(x, "[]db.IndexColumn") && hasType(y, "[]db.IndexColumn") ==> (result <==> deepid(deref(x, "[]db.IndexColumn")) == deepid(deref(y, "[]db.IndexColumn")))
+
+// isRowid: SQLite's rule for "INTEGER PRIMARY KEY is the rowid": the declared type is exactly
+// INTEGER (any case), and a column-level PRIMARY KEY must not be DESC (sql.Asc == 0).
+//@ func db.isRowid
+//@   props C10 C05
+//@   pure
+//@   ensures [rule] result <==> (streq(str_upper(typ), "INTEGER") && (tableConstraint || dir == 0))
+
+// col_index: naming token for the result of (*Schema).Column on a column list (offset, length,
+// contents) and a name; Column's other postconditions say what it is.
+//@ smt schema_tokens
+//@ (declare-fun col_index ((_ BitVec 64) (_ BitVec 64) (Array (_ BitVec 64) S_db_TableColumn) Str) (_ BitVec 64))
+
+//@ macro COLIDX(st, name) = col_index(off(st.Columns), len(st.Columns), mem(st.Columns), name)
+
+// Column: index of the first column whose name equals `name` ignoring case, or -1.
+//@ func (*db.Schema).Column
+//@   props C10 C05
+//@   pure
+//@   requires st != nil
+//@   ensures [range] -1 <= result && result < len(st.Columns)
+//@   trusted-ensures [token] result == COLIDX(st, name)
+//@   ensures [hit] result >= 0 ==> streq(str_lower(st.Columns[result].Column), str_lower(name))
+//@   ensures [first] forall j int :: 0 <= j && j < len(st.Columns) && (result < 0 || j < result) ==> !streq(str_lower(st.Columns[j].Column), str_lower(name))
+//@   loop 1 invariant forall j int :: 0 <= j && j < $i ==> !streq(str_lower(st.Columns[j].Column), str_lower(name))
+
+// (*Schema).column has no contract: it is inlined at its call sites (it returns nil or the address of
+// the element Column found).
+
+//@ func (*db.SchemaIndex).Column
+//@   props C10 C05
+//@   pure
+//@   requires si != nil
+//@   ensures [range] -1 <= result && result < len(si.Columns)
+//@   ensures [hit] result >= 0 ==> streq(str_upper(si.Columns[result].Column), str_upper(name))
+//@   ensures [first] forall j int :: 0 <= j && j < len(si.Columns) && (result < 0 || j < result) ==> !streq(str_upper(si.Columns[j].Column), str_upper(name))
+//@   loop 1 invariant forall j int :: 0 <= j && j < $i ==> !streq(str_upper(si.Columns[j].Column), str_upper(name))
+
+// toIndexColumns: every indexed column keeps its name/expression/direction; a plain column takes the
+// collation written in the index definition and, only when none is written, the collation declared
+// on the table column (found by name, ignoring case); expression columns and unknown names get none.
+//@ macro ICRULE(st, src, dst) = dst.Column == src.Column && dst.Expression == src.Expression && dst.SortOrder == src.SortOrder && dst.Collate == ite(len(src.Column) != 0 && COLIDX(st, src.Column) >= 0, ite(len(src.Collate) != 0, src.Collate, st.Columns[COLIDX(st, src.Column)].Collate), "")
+//@ func (*db.Schema).toIndexColumns
+//@   props C10 C05 C03
+//@   modifies alloc M:S_db_IndexColumn
+//@   requires st != nil
+//@   ensures [len] len(result) == len(ci)
+//@   ensures [rule] forall k int :: 0 <= k && k < len(ci) ==> ICRULE(st, ci[k], result[k])
+//@   loop 1 invariant len(cs) == $i
+//@   loop 1 invariant forall k int :: 0 <= k && k < $i ==> ICRULE(st, ci[k], cs[k])
+
+// Automatic index numbering. `created` counts the automatic indexes SQLite has created so far for the
+// table being interpreted: one per addIndex that added an index, one per WITHOUT ROWID primary key
+// (setPK). The n-th automatic index is named sqlite_autoindex_<table>_<n>; fmt.Sprintf with that
+// format is named autoindex_name.
+//@ ghost created bv64
+//@ smt autoindex
+//@ (declare-fun autoindex_name (Str (_ BitVec 64)) Str)
+
+// addIndex: adds the index unless an index with the same column list exists or the list is the
+// WITHOUT ROWID primary key; says whether it added; existing entries are untouched.
+//@ func (*db.Schema).addIndex
+//@   props C10 C05
+//@   modifies alloc M:S_db_SchemaIndex db.Schema.Indexes db.Schema.PrimaryKey created
+//@   requires st != nil
+//@   requires [numbered] name == autoindex_name(st.Table, 1 + created)
+//@   ghost-exit created = created + ite(result, 1, 0)
+//@   ensures [count] created == old(created) + ite(result, 1, 0)
+//@   ensures [rule] result <==> (deepid(old(st.PK)) != deepid(cols) && (forall k int :: 0 <= k && k < old(len(st.Indexes)) ==> deepid(old(st.Indexes[k].Columns)) != deepid(cols)))
+//@   ensures [added] result ==> len(st.Indexes) == old(len(st.Indexes)) + 1 && st.Indexes[old(len(st.Indexes))].Index == name && st.Indexes[old(len(st.Indexes))].Columns == cols && (pk ==> st.PrimaryKey == name)
+//@   ensures [same] !result ==> st.Indexes == old(st.Indexes)
+//@   ensures [kept] forall k int :: 0 <= k && k < old(len(st.Indexes)) ==> st.Indexes[k] == old(st.Indexes[k])
+//@   loop 1 invariant forall k int :: 0 <= k && k < $i ==> deepid(st.Indexes[k].Columns) != deepid(cols)
+
+// setPK (WITHOUT ROWID): records the primary key and drops the index that duplicates it. The slice
+// surgery inside its range loop is in bounds because index column lists are pairwise distinct (addIndex
+// never adds a duplicate); that argument is not mechanised.
+//@ func (*db.Schema).setPK
+//@   props C10
+//@   trusted removal inside a range loop; in bounds only under the pairwise-distinct invariant of the index list (not mechanised)
+//@   modifies alloc M:S_db_SchemaIndex db.Schema.Indexes db.Schema.PK created
+//@   requires st != nil
+//@   trusted-ensures [count] created == old(created) + 1
+//@   trusted-ensures [pk] st.PK == cols
+
+//@ func (*db.Schema).addCreateIndex
+//@   props C10 C05
+//@   modifies alloc mem db.Schema.Indexes
+//@   requires st != nil
+
+// newCreateTable: automatic indexes are numbered in creation order: the counter passed into every
+// index name is one more than the number of automatic indexes created so far.
+//@ func db.newCreateTable
+//@   props C10 C05
+//@   modifies alloc mem heap box created
+//@   ghost-entry created = 0
+//@   ensures [result] r1 == nil ==> r0 != nil
+//@   loop 1 invariant [numbering] autoindex == 1 + created
+//@   loop 2 invariant [numbering] autoindex == 1 + created
+
+//@ func db.newSchema
+//@   props C10 C05
+//@   modifies alloc mem heap box created
+//@   ensures [result] err == nil ==> r0 != nil
